@@ -146,9 +146,7 @@ def _gen_pattern(rnd, sch, into_arrays):
         return "/" + "/".join(parts)
 
 
-@st.composite
-def _cases(draw):
-    rnd = draw(urandoms())
+def _gen_from(rnd):
     sch = gen_schema(rnd)
     old = gen_doc(rnd, sch)
     new = mutate_doc(rnd, sch, old) if rnd.chance(65) else gen_doc(rnd, sch)
@@ -157,6 +155,16 @@ def _cases(draw):
     return {"old": old, "new": new, "frag": frag, "frag2": frag2, "acl": gen_acl(rnd, sch), "acl2": gen_acl(rnd, sch),
             "filters": gen_acl(rnd, sch)}
 
+
+@st.composite
+def _cases(draw):
+    return _gen_from(draw(urandoms()))
+
+
+def fuzz_decode(fdp):
+    """coverage-guided tier: the same generator driven by fuzzer-chosen bytes (vf/core/fuzz_target.py)"""
+    from vf.model.rnd import FdpRandom
+    return _gen_from(FdpRandom(fdp))
 
 def strategy(tier):
     return _cases()
